@@ -28,12 +28,25 @@ def grammar_rules(ctx) -> Dict[str, Tuple[Any, ast.AST]]:
     ctx.require(len(roots) == 1 and roots[0].args and isinstance(roots[0].args[0], ast.Name),
                 "compile_filter no longer builds one ParserPython(<start rule>)")
     out: Dict[str, Tuple[Any, ast.AST]] = {}
+    cur_mod: Dict[str, Any] = {}     # rule name -> module in which the reference to it was seen
+    mod = cf.module
     work = [roots[0].args[0].id]
     while work:
         name = work.pop()
         if name in out:
             continue
-        cands = [f for f in repo.funcs.get(name, []) if f.module is mod and f.cls is None and f.parent_fn is None]
+        top = [f for f in repo.funcs.get(name, []) if f.cls is None and f.parent_fn is None]
+        home = cur_mod.get(name, mod)
+        cands = [f for f in top if f.module is home]
+        if not cands:
+            # a rule function imported from another repo module (explicit import or star import)
+            tgt = home.imports.get(name)
+            if tgt:
+                m2 = repo.by_modname.get(tgt.rpartition(".")[0])
+                cands = [f for f in top if m2 is not None and f.module is m2 and f.name == tgt.rpartition(".")[2]]
+            else:
+                stars = [repo.by_modname.get(st_) for st_ in home.star_imports]
+                cands = [f for f in top if any(f.module is m2 for m2 in stars if m2 is not None)]
         if not cands:
             continue  # arpeggio combinator (Optional, ZeroOrMore, RegExMatch, EOF ...)
         rets = returns_of(cands[0].node)
@@ -42,6 +55,7 @@ def grammar_rules(ctx) -> Dict[str, Tuple[Any, ast.AST]]:
         for n in ast.walk(rets[0].value):
             if isinstance(n, ast.Name):
                 work.append(n.id)
+                cur_mod.setdefault(n.id, cands[0].module)
     return out
 
 
@@ -478,7 +492,7 @@ class _FilterEval(ConstEval):
                            if isinstance(st, ast.AnnAssign) and isinstance(st.target, ast.Name)]
         if len(self.rec_fields) < 2 or "result" not in self.rec_fields:
             raise AnalysisError("MatchResult no longer has (result, fields)")
-        self.bool_fn = rec_cls.methods.get("__bool__")
+        self.bool_fn = repo.lookup_method(rec_cls, "__bool__")
         self.children = children
         self.called: List[str] = []
         self.attr_hook = self._hook
@@ -997,7 +1011,7 @@ def r4_result_is_bool(ctx):
     """MatchResult.__bool__ returns self.result: python raises TypeError unless that is a real bool."""
     repo = ctx.repo
     rec = repo.cls("MatchResult", FILT)
-    bf = rec.methods.get("__bool__")
+    bf = repo.lookup_method(rec, "__bool__")
     if bf is None:
         ctx.note("C18.R4: MatchResult has no __bool__ (always truthy as a tuple) - boolean nodes are checked by C18.R3")
         return
@@ -1076,8 +1090,10 @@ def _helper_body(m) -> List[ast.stmt]:
     return body
 
 
-def _inlinable(repo, fi, call) -> Optional[Tuple[Any, Dict[str, ast.AST]]]:
+def _inlinable(repo, fi, call, exclude=()) -> Optional[Tuple[Any, Dict[str, ast.AST]]]:
     f = call.func
+    if isinstance(f, ast.Attribute) and f.attr in exclude:
+        return None
     if not (isinstance(f, ast.Attribute) and isinstance(f.value, ast.Name) and f.value.id == "self" and fi.cls is not None):
         return None
     m = repo.lookup_method(fi.cls, f.attr)
@@ -1111,7 +1127,7 @@ def _inlinable(repo, fi, call) -> Optional[Tuple[Any, Dict[str, ast.AST]]]:
     return m, mapping
 
 
-def inline_self_calls(repo, fi, depth=3):
+def inline_self_calls(repo, fi, depth=3, exclude=()):
     """FuncInfo whose body has calls of same-class helper methods replaced by the helpers' bodies
     (statement calls of helpers without a value-return; expression calls of single-`return <expr>` helpers)."""
     from ..core import FuncInfo, set_parents
@@ -1122,7 +1138,7 @@ def inline_self_calls(repo, fi, depth=3):
         caller_names = {n.id for n in ast.walk(node) if isinstance(n, ast.Name)} | {a.arg for a in node.args.args}
         # expression-level
         for c in [n for n in ast.walk(node) if isinstance(n, ast.Call)]:
-            hit = _inlinable(repo, fi, c)
+            hit = _inlinable(repo, fi, c, exclude)
             if hit is None:
                 continue
             m, mapping = hit
@@ -1143,7 +1159,7 @@ def inline_self_calls(repo, fi, depth=3):
             continue
         # statement-level
         for st in [n for n in ast.walk(node) if isinstance(n, ast.Expr) and isinstance(n.value, ast.Call)]:
-            hit = _inlinable(repo, fi, st.value)
+            hit = _inlinable(repo, fi, st.value, exclude)
             if hit is None:
                 continue
             m, mapping = hit
@@ -1442,6 +1458,43 @@ def _root_attr(e, recv: str) -> Optional[str]:
     return found[0] if len(set(found)) == 1 else None
 
 
+def effective_code(repo, ci, start_name: str, flow_param: Optional[int] = None, depth=3):
+    """The functions that run when `start_name` is called on concrete class `ci`: the method found through the MRO
+    plus every self./cls. callee resolved against `ci` (template method + hooks).  With flow_param = index of a
+    parameter of the start method, also tracks into which parameter of each callee that argument is passed:
+    returns [(FuncInfo, param name | None)]."""
+    m0 = repo.lookup_method(ci, start_name)
+    if m0 is None:
+        return []
+    p0 = None
+    if flow_param is not None:
+        ps = [a.arg for a in m0.node.args.args]
+        p0 = ps[flow_param] if flow_param < len(ps) else None
+    out, frontier = [(m0, p0)], [(m0, p0)]
+    for _ in range(depth):
+        nxt = []
+        for g, gp in frontier:
+            for c in calls(g.node, into_defs=True):
+                fn = c.func
+                if isinstance(fn, ast.Attribute) and isinstance(fn.value, ast.Name) and fn.value.id in ("self", "cls"):
+                    m = repo.lookup_method(ci, fn.attr)
+                    if m is None or any(m == x for x, _ in out):
+                        continue
+                    mp = None
+                    if gp is not None:
+                        ps = [a.arg for a in m.node.args.args][1:]
+                        for i, a in enumerate(c.args):
+                            if isinstance(a, ast.Name) and a.id == gp and i < len(ps):
+                                mp = ps[i]
+                        for k in c.keywords:
+                            if isinstance(k.value, ast.Name) and k.value.id == gp and k.arg in ps:
+                                mp = k.arg
+                    out.append((m, mp))
+                    nxt.append((m, mp))
+        frontier = nxt
+    return out
+
+
 def r6(ctx):
     repo = ctx.repo
     ctx.rule("C18.R6", "export/import key agreement: keys written by each to_dict = keys read by the matching "
@@ -1512,18 +1565,27 @@ def r6(ctx):
                "entries of this class are exported with a type the importer cannot dispatch")
         # subclass to_dict / from_dict pair
         t2 = ci.methods.get("to_dict")
-        f2 = ci.methods.get("from_dict")
-        ctx.ob("C18.R6", f"{ci.name} defines the to_dict/from_dict pair", t2 is not None and f2 is not None,
+        f2 = repo.lookup_method(ci, "from_dict")
+        # from_dict as it runs for this class: its own, or the base's template method with this class's hooks
+        fcode = [(g, gp) for g, gp in effective_code(repo, ci, "from_dict", flow_param=1)
+                 if g.name != "apply_dict" and not any(isinstance(d, ast.Attribute) and d.attr == "abstractmethod" or
+                                                       (ap(d) or "").endswith("abstractmethod") for d in g.node.decorator_list)]
+        own = any(g.cls is not None and g.cls == ci for g, _ in fcode)
+        ctx.ob("C18.R6", f"{ci.name} defines the to_dict/from_dict pair", t2 is not None and f2 is not None and own,
                ctx.w(lmod, ci.node))
-        if t2 is None or f2 is None:
+        if t2 is None or f2 is None or not own:
             continue
         wkeys, sup = _keys_written_sub(t2)
         fparams = [a.arg for a in f2.node.args.args]
         ctx.require(len(fparams) == 2, f"{ci.name}.from_dict signature changed")
-        rkeys = _const_keys_read(f2.node, fparams[1])
+        rkeys = {}
+        for g, gp in fcode:
+            if gp is not None:
+                for k, v in _const_keys_read(g.node, gp).items():
+                    rkeys.setdefault(k, v)
         ctx.ob("C18.R6", f"{ci.name}.to_dict extends super().to_dict()", sup, t2.where)
         ctx.ob("C18.R6", f"{ci.name}.from_dict applies the base keys (apply_dict(val))",
-               any(call_attr(c) == "apply_dict" and c.args and ap(c.args[0]) == fparams[1] for c in calls(f2.node)),
+               any(call_attr(c) == "apply_dict" and c.args and ap(c.args[0]) == gp for g, gp in fcode for c in calls(g.node)),
                f2.where, "region name / agent id / summary / meta are dropped on import")
         for k in sorted(set(wkeys) | set(rkeys)):
             if k in read or k in written:
@@ -1533,7 +1595,7 @@ def r6(ctx):
                    "written but never read" if k in wkeys else "read but never written (KeyError on import)")
         # textual encodings pair up
         enc = {call_attr(c) for c in calls(t2.node) if (ap(c.func) or "").startswith("llsd.format_")}
-        dec = {call_attr(c) for c in calls(f2.node) if (ap(c.func) or "").startswith("llsd.parse_")}
+        dec = {call_attr(c) for g, _ in fcode for c in calls(g.node) if (ap(c.func) or "").startswith("llsd.parse_")}
         if enc or dec:
             ctx.ob("C18.R6", f"{ci.name}: llsd encoding on export matches the parser on import",
                    {e.replace("format_", "") for e in enc} == {d.replace("parse_", "") for d in dec}, t2.where,
@@ -1657,9 +1719,10 @@ def r7(ctx):
                        "recorded only under a successful comparison, and a loop over candidate fields is left early "
                        "(break / return) only after a hit")
     from .common import class_methods_reachable
-    start = repo.fn("LLUDPMessageLogEntry.matches")
-    fns = [g for g in class_methods_reachable(repo, start, depth=2)
-           if g.module.rel == LOGR and g.name not in ("_val_matches", "_base_matches", "_packet_root_matches", "_get_meta")]
+    lcls = repo.cls("LLUDPMessageLogEntry", LOGR)
+    fns = [g for g, _ in effective_code(repo, lcls, "matches", depth=2)
+           if g.name not in ("_val_matches", "_base_matches", "_packet_root_matches", "_get_meta")]
+    ctx.require(bool(fns), "LLUDPMessageLogEntry.matches vanished")
     n_exits = n_hits = 0
     for g in fns:
         found = set()
